@@ -46,21 +46,94 @@ impl Serializer for U8Rec {
     fn serialize_u8(self, v: u8) -> Result<Option<u8>, E> {
         Ok(Some(v))
     }
-    bad8!(serialize_bool(bool), serialize_i8(i8), serialize_i16(i16), serialize_i32(i32), serialize_i64(i64), serialize_u16(u16), serialize_u32(u32), serialize_u64(u64), serialize_f32(f32), serialize_f64(f64), serialize_char(char), serialize_str(&str), serialize_bytes(&[u8]));
-    fn serialize_none(self) -> Result<Option<u8>, E> { Ok(None) }
-    fn serialize_some<T: ?Sized + ser::Serialize>(self, _: &T) -> Result<Option<u8>, E> { Ok(None) }
-    fn serialize_unit(self) -> Result<Option<u8>, E> { Ok(None) }
-    fn serialize_unit_struct(self, _: &'static str) -> Result<Option<u8>, E> { Ok(None) }
-    fn serialize_unit_variant(self, _: &'static str, _: u32, _: &'static str) -> Result<Option<u8>, E> { Ok(None) }
-    fn serialize_newtype_struct<T: ?Sized + ser::Serialize>(self, _: &'static str, _: &T) -> Result<Option<u8>, E> { Ok(None) }
-    fn serialize_newtype_variant<T: ?Sized + ser::Serialize>(self, _: &'static str, _: u32, _: &'static str, _: &T) -> Result<Option<u8>, E> { Ok(None) }
-    fn serialize_seq(self, _: Option<usize>) -> Result<Self::SerializeSeq, E> { Err(E) }
-    fn serialize_tuple(self, _: usize) -> Result<Self::SerializeTuple, E> { Err(E) }
-    fn serialize_tuple_struct(self, _: &'static str, _: usize) -> Result<Self::SerializeTupleStruct, E> { Err(E) }
-    fn serialize_tuple_variant(self, _: &'static str, _: u32, _: &'static str, _: usize) -> Result<Self::SerializeTupleVariant, E> { Err(E) }
-    fn serialize_map(self, _: Option<usize>) -> Result<Self::SerializeMap, E> { Err(E) }
-    fn serialize_struct(self, _: &'static str, _: usize) -> Result<Self::SerializeStruct, E> { Err(E) }
-    fn serialize_struct_variant(self, _: &'static str, _: u32, _: &'static str, _: usize) -> Result<Self::SerializeStructVariant, E> { Err(E) }
+    bad8!(
+        serialize_bool(bool),
+        serialize_i8(i8),
+        serialize_i16(i16),
+        serialize_i32(i32),
+        serialize_i64(i64),
+        serialize_u16(u16),
+        serialize_u32(u32),
+        serialize_u64(u64),
+        serialize_f32(f32),
+        serialize_f64(f64),
+        serialize_char(char),
+        serialize_str(&str),
+        serialize_bytes(&[u8])
+    );
+    fn serialize_none(self) -> Result<Option<u8>, E> {
+        Ok(None)
+    }
+    fn serialize_some<T: ?Sized + ser::Serialize>(self, _: &T) -> Result<Option<u8>, E> {
+        Ok(None)
+    }
+    fn serialize_unit(self) -> Result<Option<u8>, E> {
+        Ok(None)
+    }
+    fn serialize_unit_struct(self, _: &'static str) -> Result<Option<u8>, E> {
+        Ok(None)
+    }
+    fn serialize_unit_variant(
+        self,
+        _: &'static str,
+        _: u32,
+        _: &'static str,
+    ) -> Result<Option<u8>, E> {
+        Ok(None)
+    }
+    fn serialize_newtype_struct<T: ?Sized + ser::Serialize>(
+        self,
+        _: &'static str,
+        _: &T,
+    ) -> Result<Option<u8>, E> {
+        Ok(None)
+    }
+    fn serialize_newtype_variant<T: ?Sized + ser::Serialize>(
+        self,
+        _: &'static str,
+        _: u32,
+        _: &'static str,
+        _: &T,
+    ) -> Result<Option<u8>, E> {
+        Ok(None)
+    }
+    fn serialize_seq(self, _: Option<usize>) -> Result<Self::SerializeSeq, E> {
+        Err(E)
+    }
+    fn serialize_tuple(self, _: usize) -> Result<Self::SerializeTuple, E> {
+        Err(E)
+    }
+    fn serialize_tuple_struct(
+        self,
+        _: &'static str,
+        _: usize,
+    ) -> Result<Self::SerializeTupleStruct, E> {
+        Err(E)
+    }
+    fn serialize_tuple_variant(
+        self,
+        _: &'static str,
+        _: u32,
+        _: &'static str,
+        _: usize,
+    ) -> Result<Self::SerializeTupleVariant, E> {
+        Err(E)
+    }
+    fn serialize_map(self, _: Option<usize>) -> Result<Self::SerializeMap, E> {
+        Err(E)
+    }
+    fn serialize_struct(self, _: &'static str, _: usize) -> Result<Self::SerializeStruct, E> {
+        Err(E)
+    }
+    fn serialize_struct_variant(
+        self,
+        _: &'static str,
+        _: u32,
+        _: &'static str,
+        _: usize,
+    ) -> Result<Self::SerializeStructVariant, E> {
+        Err(E)
+    }
 }
 impl SerializeTuple for TupRec {
     type Ok = ([u8; 16], usize, bool);
@@ -88,23 +161,99 @@ impl Serializer for RecBytes {
     type SerializeMap = Impossible<Self::Ok, E>;
     type SerializeStruct = Impossible<Self::Ok, E>;
     type SerializeStructVariant = Impossible<Self::Ok, E>;
-    badt!(serialize_bool(bool), serialize_i8(i8), serialize_i16(i16), serialize_i32(i32), serialize_i64(i64), serialize_u8(u8), serialize_u16(u16), serialize_u32(u32), serialize_u64(u64), serialize_f32(f32), serialize_f64(f64), serialize_char(char), serialize_str(&str), serialize_bytes(&[u8]));
-    fn serialize_none(self) -> Result<Self::Ok, E> { Err(E) }
-    fn serialize_some<T: ?Sized + ser::Serialize>(self, _: &T) -> Result<Self::Ok, E> { Err(E) }
-    fn serialize_unit(self) -> Result<Self::Ok, E> { Err(E) }
-    fn serialize_unit_struct(self, _: &'static str) -> Result<Self::Ok, E> { Err(E) }
-    fn serialize_unit_variant(self, _: &'static str, _: u32, _: &'static str) -> Result<Self::Ok, E> { Err(E) }
-    fn serialize_newtype_struct<T: ?Sized + ser::Serialize>(self, _: &'static str, _: &T) -> Result<Self::Ok, E> { Err(E) }
-    fn serialize_newtype_variant<T: ?Sized + ser::Serialize>(self, _: &'static str, _: u32, _: &'static str, _: &T) -> Result<Self::Ok, E> { Err(E) }
-    fn serialize_seq(self, _: Option<usize>) -> Result<Self::SerializeSeq, E> { Err(E) }
-    fn serialize_tuple(self, _: usize) -> Result<TupRec, E> {
-        Ok(TupRec { bytes: [0; 16], n: 0, bad: false })
+    badt!(
+        serialize_bool(bool),
+        serialize_i8(i8),
+        serialize_i16(i16),
+        serialize_i32(i32),
+        serialize_i64(i64),
+        serialize_u8(u8),
+        serialize_u16(u16),
+        serialize_u32(u32),
+        serialize_u64(u64),
+        serialize_f32(f32),
+        serialize_f64(f64),
+        serialize_char(char),
+        serialize_str(&str),
+        serialize_bytes(&[u8])
+    );
+    fn serialize_none(self) -> Result<Self::Ok, E> {
+        Err(E)
     }
-    fn serialize_tuple_struct(self, _: &'static str, _: usize) -> Result<Self::SerializeTupleStruct, E> { Err(E) }
-    fn serialize_tuple_variant(self, _: &'static str, _: u32, _: &'static str, _: usize) -> Result<Self::SerializeTupleVariant, E> { Err(E) }
-    fn serialize_map(self, _: Option<usize>) -> Result<Self::SerializeMap, E> { Err(E) }
-    fn serialize_struct(self, _: &'static str, _: usize) -> Result<Self::SerializeStruct, E> { Err(E) }
-    fn serialize_struct_variant(self, _: &'static str, _: u32, _: &'static str, _: usize) -> Result<Self::SerializeStructVariant, E> { Err(E) }
+    fn serialize_some<T: ?Sized + ser::Serialize>(self, _: &T) -> Result<Self::Ok, E> {
+        Err(E)
+    }
+    fn serialize_unit(self) -> Result<Self::Ok, E> {
+        Err(E)
+    }
+    fn serialize_unit_struct(self, _: &'static str) -> Result<Self::Ok, E> {
+        Err(E)
+    }
+    fn serialize_unit_variant(
+        self,
+        _: &'static str,
+        _: u32,
+        _: &'static str,
+    ) -> Result<Self::Ok, E> {
+        Err(E)
+    }
+    fn serialize_newtype_struct<T: ?Sized + ser::Serialize>(
+        self,
+        _: &'static str,
+        _: &T,
+    ) -> Result<Self::Ok, E> {
+        Err(E)
+    }
+    fn serialize_newtype_variant<T: ?Sized + ser::Serialize>(
+        self,
+        _: &'static str,
+        _: u32,
+        _: &'static str,
+        _: &T,
+    ) -> Result<Self::Ok, E> {
+        Err(E)
+    }
+    fn serialize_seq(self, _: Option<usize>) -> Result<Self::SerializeSeq, E> {
+        Err(E)
+    }
+    fn serialize_tuple(self, _: usize) -> Result<TupRec, E> {
+        Ok(TupRec {
+            bytes: [0; 16],
+            n: 0,
+            bad: false,
+        })
+    }
+    fn serialize_tuple_struct(
+        self,
+        _: &'static str,
+        _: usize,
+    ) -> Result<Self::SerializeTupleStruct, E> {
+        Err(E)
+    }
+    fn serialize_tuple_variant(
+        self,
+        _: &'static str,
+        _: u32,
+        _: &'static str,
+        _: usize,
+    ) -> Result<Self::SerializeTupleVariant, E> {
+        Err(E)
+    }
+    fn serialize_map(self, _: Option<usize>) -> Result<Self::SerializeMap, E> {
+        Err(E)
+    }
+    fn serialize_struct(self, _: &'static str, _: usize) -> Result<Self::SerializeStruct, E> {
+        Err(E)
+    }
+    fn serialize_struct_variant(
+        self,
+        _: &'static str,
+        _: u32,
+        _: &'static str,
+        _: usize,
+    ) -> Result<Self::SerializeStructVariant, E> {
+        Err(E)
+    }
 }
 
 /// hands the 16 bytes back the way a binary codec does: as a 16-element sequence of u8
@@ -115,12 +264,16 @@ struct Seq16 {
 }
 impl<'de> SeqAccess<'de> for Seq16 {
     type Error = E;
-    fn next_element_seed<T: DeserializeSeed<'de>>(&mut self, seed: T) -> Result<Option<T::Value>, E> {
+    fn next_element_seed<T: DeserializeSeed<'de>>(
+        &mut self,
+        seed: T,
+    ) -> Result<Option<T::Value>, E> {
         use serde::de::IntoDeserializer;
         if self.i < 16 {
             let v = self.b[self.i];
             self.i += 1;
-            seed.deserialize(IntoDeserializer::<E>::into_deserializer(v)).map(Some)
+            seed.deserialize(IntoDeserializer::<E>::into_deserializer(v))
+                .map(Some)
         } else {
             Ok(None)
         }
@@ -159,12 +312,25 @@ fn k6_otel_id_conversions_round_trip() {
     let sid = SpanId::from(s);
     let o: opentelemetry::trace::TraceId = tid.into();
     let back: TraceId = o.into();
-    assert!(u128::from(back) == t, "C18: TraceId <-> opentelemetry TraceId is the identity");
+    assert!(
+        u128::from(back) == t,
+        "C18: TraceId <-> opentelemetry TraceId is the identity"
+    );
     let os: opentelemetry::trace::SpanId = sid.into();
     let backs: SpanId = os.into();
-    assert!(u64::from(backs) == s, "C18: SpanId <-> opentelemetry SpanId is the identity");
+    assert!(
+        u64::from(backs) == s,
+        "C18: SpanId <-> opentelemetry SpanId is the identity"
+    );
     let d: bool = kani::any();
-    let dec = if d { SamplingDecision::Sampled } else { SamplingDecision::Unsampled };
+    let dec = if d {
+        SamplingDecision::Sampled
+    } else {
+        SamplingDecision::Unsampled
+    };
     let flags: opentelemetry::trace::TraceFlags = dec.into();
-    assert!(flags.is_sampled() == d, "C18: sampling decision maps to the sampled flag");
+    assert!(
+        flags.is_sampled() == d,
+        "C18: sampling decision maps to the sampled flag"
+    );
 }
